@@ -30,3 +30,19 @@ CHECKS["C01"] = dict(
     assumptions=["reference model engine/view_model.hpp (documented index mappings)", "g++ 12 -O0 with ASan+UBSan, assertions enabled",
                  "strides of dimensions of size <= 1 and index bases of empty dimensions are unobservable and not compared"],
 )
+
+CHECKS["C02"] = dict(
+    title="iterator / elements() random-access laws",
+    level="model_checking",
+    engine="E1",
+    claim=("At every view state reached by the E1 search (quick depth 2, thorough depth 3) the random-access laws are checked for ALL positions 0..size and ALL in-range offsets, for "
+           "begin/end, cbegin/cend, iterators of the const view, and elements() (mutable and const): positions are compared by dereferenced ADDRESS against the model, never by iterator "
+           "equality alone. Complete enumeration of states x positions x offsets within the bound."),
+    jobs=lambda tier: ranks_jobs("itermc", "san", tier),
+    rule=("E1 breadth-first search over view states (same alphabet as C01, reduced call menu); at each new state, for every iterator family (iterator, const_iterator, iterator of const view, "
+          "elements(), const elements()): for all p in [0,size], all k with p+k in [0,size]: ++/-- inverse (pre/post), (it+k)-k==it and same address, (it+k)-it==k, +=k;-=k returns to same "
+          "address, < <= > >= == != consistent with k, it[k] is *(it+k), copied and ASSIGNED iterators (assignment over an iterator at another position) designate the same address and advance "
+          "identically, converted const_iterator equals cbegin+p, *(begin+p) is v[first+p] (base and layout); elements(): k-th position, [k], front(), back() are the element at the k-th index "
+          "tuple in canonical order computed by the model. distinct_nontrivial = distinct non-empty states with >= 2 elements."),
+    assumptions=["reference model engine/view_model.hpp", "g++ 12 -O0, ASan+UBSan, assertions enabled", "iterators of two different views are never compared (out of domain)"],
+)
